@@ -27,7 +27,7 @@ ATTEMPTS = [
     ['inst', 'n', 'plain', 99], ['inst', 'n', 'plain', 'str'], ['inst', 'n', 'plain', float('nan')], ['update', 'n', 'plain', 99],
     ['cls', 'TB', 'n', 'plain', 99], ['cls', 'TA', 'n', 'plain', 'bad'], ['clsupdate', 'TB', 'n', 'plain', -1],
     ['inst', 'n', 'ref', 'S1.bad'], ['inst', 'n', 'ref', 'bind+100'], ['inst', 'n', 'ref', 'rx+100'], ['update', 'n', 'ref', 'S1.bad'],
-    ['inst', 'c', 'plain', 1], ['update', 'c', 'plain', 1], ['inst', 'c', 'ref', 'S1.v'], ['inst', 'r', 'plain', 1], ['cls', 'TB', 'r', 'plain', 1],
+    ['inst', 'c', 'plain', 1], ['update', 'c', 'plain', 1], ['inst', 'c', 'ref', 'S1.v'], ['inst', 'cl', 'plain', 1], ['inst', 'cl', 'ref', 'S1.v'], ['inst', 'r', 'plain', 1], ['cls', 'TB', 'r', 'plain', 1],
     ['cls', 'TA', 'r', 'plain', 1], ['inst', 'r', 'ref', 'S1.v'], ['inst', 's', 'plain', 5], ['inst', 'name', 'plain', 'newname'],
     ['inst', 'go', 'plain', 'yes'], ['update', 'go', 'plain', 'yes'], ['inst', 'armed', 'plain', 'yes'], ['cls', 'TB', 'armed', 'plain', None],
     ['update', 'armed', 'plain', 1],
@@ -54,6 +54,7 @@ class World:
             n = param.Number(default=5, bounds=(0, 10), allow_refs=True)
             m = param.Parameter(default='m0', allow_refs=True)
             c = param.Parameter(default=0, constant=True, allow_refs=True)
+            cl = param.Parameter(default=0, constant=True, allow_refs=True)        # linked through the constructor (below)
             r = param.Parameter(default=0, readonly=True, allow_refs=True)
             s = param.String(default='s0')
             k = param.Parameter(default='k0')
@@ -70,7 +71,7 @@ class World:
         self.Src, self.TA, self.TB = Src, TA, TB
         self.S1 = Src()
         self.R = param.rx(3)
-        self.t = TB()
+        self.t = TB(cl=self.S1.param.w)
         self.t2 = TA()
         self.stack = []
         self.constified = False
